@@ -285,11 +285,17 @@ class ImageWriter:
         return False
 
     def _create_unique_image_name(self, image: LTImage, ext: str) -> Tuple[str, str]:
-        name = image.name + ext
+        # the name comes from the document: it must stay a plain file name
+        # inside the output directory
+        base = str(image.name).replace("\0", "_")
+        for sep in (os.sep, os.altsep, "/", "\\"):
+            if sep:
+                base = base.replace(sep, "_")
+        name = base + ext
         path = os.path.join(self.outdir, name)
         img_index = 0
         while os.path.exists(path):
-            name = "%s.%d%s" % (image.name, img_index, ext)
+            name = "%s.%d%s" % (base, img_index, ext)
             path = os.path.join(self.outdir, name)
             img_index += 1
         return name, path
